@@ -623,6 +623,60 @@ pub fn run(tier: Tier) -> i32 {
         }
     }
 
+    // (3d) regexes that compile on their own but are heavy enough that a *set* of them can exceed
+    //      the regex crate's compiled size limit: every list of 2-3 of them under k / all(k) / of(k, 1)
+    {
+        let heavy: Vec<String> = vec![
+            "?\\pL{50}".into(), "?\\pL{150}".into(), "?x\\pL{150}".into(), "?\\w{120}".into(), "i?\\pL{150}".into(), "i?y\\pL{150}".into(),
+            "?\\pL{300}".into(), "?[^a]{400}".into(), "?a".into(), "a*".into(),
+        ];
+        let mut lists: Vec<Vec<String>> = vec![];
+        for a in &heavy {
+            for b in &heavy {
+                lists.push(vec![a.clone(), b.clone()]);
+                if th {
+                    for c in heavy.iter().take(6) {
+                        lists.push(vec![a.clone(), b.clone(), c.clone()]);
+                    }
+                }
+            }
+        }
+        rep.stats.count("heavy_regex_lists", lists.len() as u64);
+        let results: Vec<Option<(String, String, String)>> = lists
+            .par_iter()
+            .flat_map(|l| ["k", "all(k)", "of(k, 1)"].into_par_iter().map(move |key| (l, key)))
+            .map(|(l, key)| {
+                let mut v = base.clone();
+                let mut mm = serde_yaml::Mapping::new();
+                mm.insert(Y::String(key.into()), Y::Sequence(l.iter().map(|x| Y::String(x.clone())).collect()));
+                replace_at(&mut v, &["detection".to_string(), "A".to_string()], &Y::Mapping(mm));
+                let r = catch(move || match Rule::from_value(v) {
+                    Ok(r) => {
+                        let d = crate::mdoc::MObj::new().with("k", crate::mdoc::s("aaa"));
+                        let _ = r.matches(&d);
+                        let _ = r.optimise(tau_engine::Optimisations::default()).matches(&d);
+                        true
+                    }
+                    Err(_) => false,
+                });
+                r.err().map(|msg| (format!("{}: {:?}", key, l), sig_of_panic("load-heavy-regex-list", &msg), msg))
+            })
+            .collect();
+        for r in results {
+            rep.stats.states += 1;
+            rep.stats.evaluations += 1;
+            rep.stats.transitions += 3;
+            rep.stats.traces += 1;
+            if let Some((what, sig, msg)) = r {
+                rep.stats.push_violation(Violation {
+                    signature: sig,
+                    witness: format!("loading / matching {} panics: {}", what, msg),
+                    replay: json!({"kind":"optimise","rule_yaml":format!("detection:\n  A: {{{}}}\n  condition: A\ntrue_positives: []\ntrue_negatives: []\n", what),"sw_bits":15,"hash_order_choices":[]}),
+                });
+            }
+        }
+    }
+
     // (4) YAML shapes at every node position (thorough: every pair of positions)
     let skel: Y = serde_yaml::from_str(
         "detection:\n  A: {f: x, g: [x, '*y'], n: {h: x}}\n  B: [{f: x}, {'all(g)': [a, b]}]\n  condition: A and B\ntrue_positives: [{f: x}]\ntrue_negatives: []\noptimised: false\n",
